@@ -658,7 +658,7 @@ class Gen:
         allc = sc.referable()
         fns = ["sum", "min", "max", "average", "count"]
         if ordered:
-            fns += ["lag", "lead", "first", "last", "rank", "rank_dense", "row_number"] * 1
+            fns += ["lag", "lead", "rank", "rank_dense", "row_number"] * 3 + ["first", "last"]
         elif frame is None:
             fns += ["rank", "rank_dense"]
         fn = r.choice(fns)
